@@ -217,7 +217,7 @@ CLAIMS = {
                 'over the steps in the PEG derivation, the token replay, setNodeChain/setConnectedText and the specification). PARTIAL for: '
                 'names after `..`, in filter operands and in multi-name selectors, and the short escapes \\b \\t \\n \\f \\r. Tie: keys '
                 'from all Unicode planes, controls, escape-like sequences, near-miss siblings, 3 spellings x 5 path positions vs direct '
-                'map lookup and vs the model; the texts of key_path, dot_path and chain_path (nested objects, mixed spellings) themselves are sent too (the driver confirms they are the extracted definitions).',
+                'map lookup and vs the model; the texts of key_path, dot_path and chain_path (nested objects, mixed spellings) themselves are sent too (the driver confirms they are the extracted definitions). C16_member_test_in_filter_operand (KeyFilt.v): the existence test over one name in any spelling, plain or negated, selects exactly the members that are objects holding that name (or the others), in member order; such texts are sent too.',
         'note': NOTE_COMMON + ' encoding/json string unquoting is modelled concretely in coq/Text.v.',
         'technique': 'Coq proof from the path text (PEG big-step derivation + token replay + refinement) + codec round-trip proofs '
                      '(induction, explicit fuel) + direct lookup oracle + correspondence'},
